@@ -22,31 +22,31 @@ from pyvc.ptlib import mk_placeholder, shape_term
 from pyvc.sym import EngineSignal, z_of
 
 
-def eval_shape(h, clause, res):
+def eval_shape(h, clause, res, props=("C03",)):
     """'.shape' and '.ndim' are available immediately, without raising."""
     try:
         shp = h.interp.getattr(res, "shape")
         nd = h.interp.getattr(res, "ndim")
         h.oblige(f"{clause}.ndim-consistent", z3.BoolVal(nd == len(shp)),
-                 props=("C03",))
+                 props=props)
         return shp
     except EngineSignal:
         raise
     except Exception as e:  # noqa: BLE001
         h.fail(f"{clause}.shape-available-at-build-time",
-               f"{type(e).__name__}: {e}", props=("C03",))
+               f"{type(e).__name__}: {e}", props=props)
         return None
 
 
-def oblige_shape(h, clause, shp, want):
+def oblige_shape(h, clause, shp, want, props=("C03",)):
     if len(shp) != len(want):
         h.fail(f"{clause}.shape-rank", f"{len(shp)} != {len(want)}",
-               props=("C03",))
+               props=props)
         return
     for d, (a, b) in enumerate(zip(shp, want, strict=True)):
         h.oblige(f"{clause}.shape[{d}]",
                  shape_term(a) == (b if z3.is_expr(b) else shape_term(b)),
-                 props=("C03",))
+                 props=props)
 
 
 @contract
@@ -56,7 +56,7 @@ class AxisArguments(Contract):
                  "pytato.array:concatenate", "pytato.array:expand_dims",
                  "pytato.array:squeeze", "pytato.array:transpose",
                  "pytato.array:Stack.shape", "pytato.array:Concatenate.shape")
-    properties = ("C03",)
+    properties = ("C03", "C01")
 
     def instances(self, tier):
         out = []
@@ -165,9 +165,20 @@ class AxisArguments(Contract):
                  props=("C03",), info=f"{fn} rank={r} axis={ax}")
         if not ok or not isinstance(res, Array):
             return
-        shp = eval_shape(h, clause, res)
+        # expand_dims has no lowering of its own: it *is* a C-order reshape of
+        # the operand to the shape it computes, and NumPy's expand_dims is the
+        # C-order reshape to NumPy's shape -- so, given lower.reshape, its
+        # value (C01) is right exactly when this shape is
+        props = ("C03", "C01") if fn == "expand_dims" else ("C03",)
+        if fn == "expand_dims":
+            from pytato.array import Reshape
+            h.oblige(f"{clause}.expand_dims-is-a-c-order-reshape-of-the-"
+                     "operand", z3.BoolVal(
+                         isinstance(res, Reshape) and res.array is a
+                         and res.order == "C"), props=("C01",))
+        shp = eval_shape(h, clause, res, props)
         if shp is not None and want is not None:
-            oblige_shape(h, clause, shp, want)
+            oblige_shape(h, clause, shp, want, props)
 
     def replay(self, inst, clause, model, info):
         return AXIS_REPLAY.format(inst=inst)
